@@ -372,7 +372,7 @@ def _vec(vm, m, c, args):
         if is_sym(i): raise Unmodelled('symbolic Vec index')
         if i >= len(refs): return panic(m, ('index out of bounds', (i, len(refs)), None))
         return ret(m, refs[i])
-    mm = re.match(r'^<(?:\[.*\]|Vec<.*>) as (?:std::ops::)?Index(?:Mut)?<(?:std::ops::)?Range(From|To|Full|Inclusive|)<usize>>>::index(?:_mut)?$', c)
+    mm = re.match(r'^<(?:\[.*\]|Vec<.*>) as (?:std::ops::)?Index(?:Mut)?<(?:std::ops::)?Range(From|To|Full|Inclusive|)(?:<usize>)?>>::index(?:_mut)?$', c)
     if mm:
         sl = as_slice(vm, m, args[0]); kind = mm.group(1); r = args[1]
         if sl.shape is not None: raise Unmodelled('range index of a shaped slice')
